@@ -40,3 +40,21 @@ func init() {
 		}})
 	}
 }
+
+func init() {
+	if os.Getenv("DMVERIF_ERRGUARD") != "" {
+		register(&propSpec{id: "DBG", run: func(c *Ctx) {
+			n := checkValuesGuardedByErr(c, "errguard", nil, "pkg/core", "pkg/cafs", "pkg/fuse", "pkg/wal", "pkg/storage/localfs", "pkg/model", "pkg/context", "pkg/filetracker", "pkg/sidecar/param")
+			fmt.Println("sites:", n)
+		}})
+	}
+}
+
+func init() {
+	if os.Getenv("DMVERIF_ERRBRANCH") != "" {
+		register(&propSpec{id: "DBG", run: func(c *Ctx) {
+			n := checkErrBranchFails(c, "errbranch", nil, "pkg/core", "pkg/cafs", "pkg/fuse", "pkg/wal", "pkg/storage/localfs", "pkg/model", "pkg/context", "pkg/filetracker", "pkg/sidecar/param", "pkg/storage")
+			fmt.Println("sites:", n)
+		}})
+	}
+}
